@@ -5,11 +5,11 @@ use educe::Educe;
 use core::cmp::Ordering;
 #[derive(Educe)]
 #[repr(i64)]
-#[educe(PartialEq, Ord, Eq)]
-pub enum T { C { #[educe(Ord(rank = "2"))] data: A<0>, builder: A<1>, #[educe(Ord = false)] b: A<0> }, Unit { r#type: A<0>, _0: A<0>, arg: A<0> } = -170, None(A<0>, #[educe(Ord(ignore = true))] A<1>, #[educe(Ord(method(m_cmp)))] A<2>) = 100, Zed = -1 }
-impl PartialOrd for T { fn partial_cmp(&self, o: &Self) -> Option<Ordering> { Some(::core::cmp::Ord::cmp(self, o)) } }
-pub fn values() -> Vec<T> { vec![T::C { data: A(0), builder: A(1), b: A(0) }, T::C { data: A(7), builder: A(0), b: A(1) }, T::C { data: A(1), builder: A(1), b: A(7) }, T::C { data: A(1), builder: A(7), b: A(7) }, T::C { data: A(7), builder: A(1), b: A(1) }, T::C { data: A(1), builder: A(0), b: A(0) }, T::C { data: A(1), builder: A(1), b: A(1) }, T::C { data: A(7), builder: A(1), b: A(0) }, T::C { data: A(0), builder: A(0), b: A(7) }, T::Unit { r#type: A(7), _0: A(1), arg: A(1) }, T::Unit { r#type: A(1), _0: A(7), arg: A(0) }, T::Unit { r#type: A(7), _0: A(0), arg: A(0) }, T::Unit { r#type: A(1), _0: A(7), arg: A(7) }, T::Unit { r#type: A(0), _0: A(7), arg: A(0) }, T::Unit { r#type: A(1), _0: A(7), arg: A(1) }, T::Unit { r#type: A(7), _0: A(1), arg: A(7) }, T::Unit { r#type: A(7), _0: A(7), arg: A(0) }, T::Unit { r#type: A(1), _0: A(1), arg: A(7) }, T::None(A(7), A(0), A(1)), T::None(A(7), A(7), A(1)), T::None(A(0), A(1), A(0)), T::None(A(0), A(7), A(1)), T::None(A(1), A(7), A(0)), T::None(A(1), A(1), A(0)), T::None(A(1), A(7), A(7)), T::None(A(7), A(0), A(7)), T::None(A(7), A(1), A(1)), T::Zed] }
-pub fn show(x: &T) -> String { #[allow(unused_variables)] match x { T::C { data: p0, builder: p1, b: p2 } => format!("C({},{},{})", sv(p0), sv(p1), sv(p2)), T::Unit { r#type: p0, _0: p1, arg: p2 } => format!("Unit({},{},{})", sv(p0), sv(p1), sv(p2)), T::None(p0, p1, p2) => format!("None({},{},{})", sv(p0), sv(p1), sv(p2)), T::Zed => format!("Zed()") } }
-pub fn o_disc(x: &T) -> i128 { match x { T::C { data: _, builder: _, b: _ } => 0, T::Unit { r#type: _, _0: _, arg: _ } => -170, T::None(_, _, _) => 100, T::Zed => -1 } }
-pub fn o_cmp(a: &T, b: &T) -> Ordering { match (a, b) { (T::C { data: a0, builder: a1, b: a2 }, T::C { data: b0, builder: b1, b: b2 }) => { let c = ::core::cmp::Ord::cmp(a1, b1); if c != Ordering::Equal { return c; } let c = ::core::cmp::Ord::cmp(a0, b0); if c != Ordering::Equal { return c; } Ordering::Equal }, (T::Unit { r#type: a0, _0: a1, arg: a2 }, T::Unit { r#type: b0, _0: b1, arg: b2 }) => { let c = ::core::cmp::Ord::cmp(a0, b0); if c != Ordering::Equal { return c; } let c = ::core::cmp::Ord::cmp(a1, b1); if c != Ordering::Equal { return c; } let c = ::core::cmp::Ord::cmp(a2, b2); if c != Ordering::Equal { return c; } Ordering::Equal }, (T::None(a0, a1, a2), T::None(b0, b1, b2)) => { let c = ::core::cmp::Ord::cmp(a0, b0); if c != Ordering::Equal { return c; } let c = m_cmp(a2, b2); if c != Ordering::Equal { return c; } Ordering::Equal }, (T::Zed, T::Zed) => {  Ordering::Equal }, _ => o_disc(a).cmp(&o_disc(b)) } }
-pub fn run(out: &mut Out) { let vs = values(); for (i, a) in vs.iter().enumerate() { for (j, b) in vs.iter().enumerate() { let e = o_cmp(a, b); let g = ::core::cmp::Ord::cmp(a, b); out.check(g == e, "ord_1", "cmp", || format!("cmp({}, {}) = {:?} expected {:?}", show(a), show(b), g, e)); } } }
+#[educe(PartialEq, Eq, Ord, PartialOrd)]
+pub enum T { None {  } = 100, B = 2 }
+
+pub fn values() -> Vec<T> { vec![T::None {  }, T::B] }
+pub fn show(x: &T) -> String { #[allow(unused_variables)] match x { T::None {  } => format!("None()"), T::B => format!("B()") } }
+pub fn o_disc(x: &T) -> i128 { match x { T::None {  } => 100, T::B => 2 } }
+pub fn o_cmp(a: &T, b: &T) -> Ordering { match (a, b) { (T::None {  }, T::None {  }) => {  Ordering::Equal }, (T::B, T::B) => {  Ordering::Equal }, _ => o_disc(a).cmp(&o_disc(b)) } }
+pub fn run(out: &mut Out) { let vs = values(); for (i, a) in vs.iter().enumerate() { for (j, b) in vs.iter().enumerate() { let e = o_cmp(a, b); let g = ::core::cmp::Ord::cmp(a, b); out.check(g == e, "ord_1", "cmp", || format!("cmp({}, {}) = {:?} expected {:?}", show(a), show(b), g, e)); let g2 = ::core::cmp::PartialOrd::partial_cmp(a, b); out.check(g2 == Some(e), "ord_1", "partial_is_some_cmp", || format!("partial_cmp({}, {}) = {:?} expected Some({:?})", show(a), show(b), g2, e)); } } }
